@@ -484,7 +484,12 @@ impl Value {
         }
         // Handle cases like
         // 1,000,000
-        let negative = s.as_ref().trim_start().starts_with('-');
+        // the sign is the `-` that comes before the first digit: `-1,000`, `$-1,000`, `USD -5.50`
+        let negative = s
+            .as_ref()
+            .chars()
+            .find(|c| c.is_numeric() || *c == '.' || *c == '-')
+            == Some('-');
         let digits = s
             .as_ref()
             .chars()
